@@ -426,11 +426,31 @@ struct StorHarness : Harness
         std::string ms = meta;
         if (mk >= 2)
             ms = "json" + std::to_string(g.below(100000));
-        snprintf(b, sizeof(b), "set slot=%d uri=%s name=f%d_%d meta=%s px=%d py=%d",
-                 slot, uris[g.below(4)], slot, cyc, ms.c_str(), (int)g.below(4),
-                 (int)g.below(4));
+        // what this slot was configured with in its previous cycle (the plan
+        // generator is re-entered per plan; the state is reset when cyc == 0)
+        static std::string prev_name[2], prev_uri[2];
+        if (cyc == 0) {
+            prev_name[slot % 2].clear();
+            prev_uri[slot % 2].clear();
+        }
+        std::string uri = uris[g.below(4)];
+        std::string plain_name = "f" + std::to_string(slot) + "_" + std::to_string(cyc);
+        bool extend_prev = !prev_name[slot % 2].empty() && g.chance(0.15);
+        if (extend_prev)
+            uri = prev_uri[slot % 2]; // same spelling, so that the new path
+                                      // starts with the whole previous path
+        snprintf(b, sizeof(b), "set slot=%d uri=%s name=%s meta=%s px=%d py=%d",
+                 slot, uri.c_str(), plain_name.c_str(), ms.c_str(),
+                 (int)g.below(4), (int)g.below(4));
         std::string setline = b;
-        if (g.chance(0.3)) {
+        std::string this_name = plain_name;
+        if (extend_prev) {
+            // "stack.raw" then "stack.raw.2": the previous output's full name
+            // is a proper prefix of the new one
+            const char* ext = kind == "raw" ? ".raw" : (kind == "tiffjson" ? "" : ".tif");
+            this_name = prev_name[slot % 2] + ext + "." + std::to_string(cyc);
+            setline += " nameh=" + hex_enc(this_name);
+        } else if (g.chance(0.3)) {
             // file names of any length with characters that mean something to
             // URI and format handling (the slot/cycle suffix keeps them fresh)
             static const char* alphabet = "abfile:%. -_+~#@!,=()[]{}&'";
@@ -442,7 +462,10 @@ struct StorHarness : Harness
                 nm = "file:" + nm;
             nm += "_" + std::to_string(slot) + "_" + std::to_string(cyc);
             setline += " nameh=" + hex_enc(nm);
+            this_name = nm;
         }
+        prev_name[slot % 2] = this_name;
+        prev_uri[slot % 2] = uri;
         ops.push_back(setline);
         // frame ids are the caller's: they need not start at 0 in a file
         snprintf(b, sizeof(b), "start slot=%d fid=%llu", slot,
